@@ -69,6 +69,9 @@ func (c *FnCtx) callEffects(cc *ssa.CallCommon, res ssa.Value, pos token.Pos, de
 		callee = fv.Fn.Fn
 		bindings = fv.Fn.Bindings
 	}
+	if callee == nil && len(fv.Cands) > 0 {
+		return c.dispatchCall(fv.Cands, args, cc, resType, pos)
+	}
 	if callee == nil {
 		// dynamic call through an unknown function value
 		if fv.Place == nil && fv.T != "" {
@@ -100,8 +103,15 @@ func (c *FnCtx) staticCall(callee *ssa.Function, bindings, args []Val, cc *ssa.C
 		}
 	}
 	if inRepo {
+		for i, a := range args {
+			if a.S == SAny && a.T != "" && i < len(callee.Params) {
+				if _, isIface := types.Unalias(callee.Params[i].Type()).Underlying().(*types.Interface); isIface && !isErrorType(callee.Params[i].Type()) {
+					c.wfSink(a.T, "argument "+callee.Params[i].Name()+" of "+key, pos)
+				}
+			}
+		}
 		if spec := c.E.Specs.Funcs[key]; spec != nil {
-			return c.applyContract(callee, spec, bindings, args, resType, pos)
+			return c.applyContract(callee, spec, bindings, args, resType, pos, cc)
 		}
 		// small leaf helper without contract: inline its summary if available
 		if v, ok := c.tryInline(callee, bindings, args, resType, pos); ok {
@@ -191,14 +201,14 @@ func (c *FnCtx) calleeEnv(callee *ssa.Function, bindings, args []Val) map[string
 	return names
 }
 
-func (c *FnCtx) applyContract(callee *ssa.Function, spec *FuncSpec, bindings, args []Val, resType types.Type, pos token.Pos) Val {
+func (c *FnCtx) applyContract(callee *ssa.Function, spec *FuncSpec, bindings, args []Val, resType types.Type, pos token.Pos, cc *ssa.CallCommon) Val {
 	key := fnKey(callee)
 	c.E.usedContract(c.Name, key)
 	names := c.calleeEnv(callee, bindings, args)
 	pre := copyState(c.st)
 	// requires
 	for i, cl := range spec.Requires {
-		env := &specEnv{c: c, vars: names, st: pre, old: pre, bound: map[string]Val{}}
+		env := &specEnv{c: c, vars: names, st: pre, old: pre, bound: map[string]Val{}, callee: callee}
 		t, err := env.evalBool(cl.Expr)
 		if err != nil {
 			c.E.specError(c.Name+" (call to "+key+")", cl, err)
@@ -209,7 +219,9 @@ func (c *FnCtx) applyContract(callee *ssa.Function, spec *FuncSpec, bindings, ar
 	}
 	// frame
 	mi := c.E.modInfo(callee)
-	if spec.HasAssigns {
+	if below := spec.belowParams(); len(below) > 0 && cc != nil {
+		c.havocBelow(callee, below, cc, mi, key)
+	} else if spec.HasAssigns {
 		c.havocWithAssigns(spec, names, pre, mi.Exist)
 		c.havocMod(map[string]bool{}, mi.Fresh, "call "+key)
 	} else {
@@ -247,7 +259,7 @@ func (c *FnCtx) applyContract(callee *ssa.Function, spec *FuncSpec, bindings, ar
 		rn["result"] = v
 	}
 	for _, cl := range spec.Ensures {
-		env := &specEnv{c: c, vars: rn, st: c.st, old: pre, bound: map[string]Val{}}
+		env := &specEnv{c: c, vars: rn, st: c.st, old: pre, bound: map[string]Val{}, callee: callee}
 		t, err := env.evalBool(cl.Expr)
 		if err != nil {
 			c.E.specError(c.Name+" (call to "+key+")", cl, err)
@@ -371,7 +383,7 @@ func (c *FnCtx) assignRows(spec *FuncSpec, names map[string]Val, st map[string]s
 
 // checkWrite / checkWriteRow: per-write frame obligations are subsumed by the frame check at
 // return (net effect); kept as hooks.
-func (c *FnCtx) checkWrite(pl *Place, pos token.Pos)             {}
+func (c *FnCtx) checkWrite(pl *Place, pos token.Pos)           {}
 func (c *FnCtx) checkWriteRow(heap, ref string, pos token.Pos) {}
 
 // checkFrameAtReturn: every pre-existing row outside the assigns clause is unchanged at return.
@@ -386,6 +398,9 @@ func (c *FnCtx) checkFrameAtReturn(r retInfo, ri int) {
 		old := c.heapIn(c.entry, n)
 		if cur == old {
 			continue
+		}
+		if len(c.Spec.belowParams()) > 0 && isAnyTreeHeap(n) {
+			continue // frame inside the any-trees below the arguments is assumed (sep), not checked
 		}
 		var cond string
 		if strings.HasPrefix(n, "G|") {
@@ -764,4 +779,66 @@ func (c *FnCtx) errConvention(callee *ssa.Function, rv Val) {
 		return
 	}
 	c.usedExtern("convention: (T, error) result of " + externName(callee) + " is non-nil when err == nil")
+}
+
+// belowParams: parameter names listed as below(x) in the assigns clause
+func (s *FuncSpec) belowParams() []string {
+	var r []string
+	for _, a := range s.Assigns {
+		if strings.HasPrefix(a, "below(") && strings.HasSuffix(a, ")") {
+			r = append(r, strings.TrimSpace(a[6:len(a)-1]))
+		}
+	}
+	return r
+}
+
+// havocBelow: the callee writes only objects at or below the named any-tree arguments.
+// ASSUMPTION (sep): any-trees are acyclic and unshared and the trees passed as different
+// arguments are disjoint, so the containers from which an argument was loaded keep their rows.
+func (c *FnCtx) havocBelow(callee *ssa.Function, below []string, cc *ssa.CallCommon, mi *ModInfo, key string) {
+	c.E.usedExtern(c.Name, "sep: any-trees are acyclic, unshared, and distinct arguments are disjoint trees (frame of "+key+")")
+	var anc []Val
+	for i, p := range callee.Params {
+		for _, b := range below {
+			if p.Name() == b && i < len(cc.Args) {
+				anc = append(anc, c.ancestors(cc.Args[i])...)
+			}
+		}
+	}
+	pre := copyState(c.st)
+	c.havocMod(mi.Exist, mi.Fresh, "call "+key)
+	if mi.Exist["*"] {
+		return
+	}
+	seen := map[string]bool{}
+	for _, a := range anc {
+		if a.T == "" || a.GT == nil {
+			continue
+		}
+		switch u := types.Unalias(a.GT).Underlying().(type) {
+		case *types.Map:
+			mn, dn, _, _, _ := c.M.MapHeaps(u)
+			for _, h := range []string{mn, dn} {
+				if mi.Exist[h] && !seen[h+a.T] {
+					seen[h+a.T] = true
+					c.fact(fmt.Sprintf("(= (select %s %s) (select %s %s))", c.H(h), a.T, c.heapIn(pre, h), a.T))
+				}
+			}
+		case *types.Slice:
+			h, _ := c.M.SliceHeap(u.Elem())
+			if mi.Exist[h] && !seen[h+a.T] {
+				seen[h+a.T] = true
+				c.fact(fmt.Sprintf("(= (select %s (s_ref %s)) (select %s (s_ref %s)))", c.H(h), a.T, c.heapIn(pre, h), a.T))
+			}
+		}
+	}
+}
+
+func isAnyTreeHeap(n string) bool {
+	for _, p := range []string{"M|Str|Any|", "D|Str|Any|", "S|Any|", "M|Any|Any|", "D|Any|Any|"} {
+		if strings.HasPrefix(n, p) {
+			return true
+		}
+	}
+	return false
 }
